@@ -87,6 +87,10 @@ def guard_case(kind, prefix):
     return [16, int(kind), list(prefix) + fair(2, 6)]
 
 
+def user_write_case(kind, prefix):
+    return [18, int(kind), list(prefix) + fair(2, 4)]
+
+
 def store_read_case(prefix):
     return [17, list(prefix) + fair(2, 4)]
 
@@ -178,6 +182,10 @@ def generate(rng, tier):
             yield dict(case=guard_case(kind, sch), kind="guard-two-threads")
     for sch in interleavings([2, 1]):
         yield dict(case=store_read_case(sch), kind="read-vs-store")
+    # ---- 18. awaiting while a user holds the value's write guard
+    for kind in (0, 1, 2):
+        for sch in interleavings([2, 3]):
+            yield dict(case=user_write_case(kind, sch), kind="await-vs-write-guard")
     # ---- 7. a signal read against a write that holds the value lock
     for sch in interleavings([2, 1]):
         yield dict(case=read_case(sch), kind="read-vs-write")
@@ -220,6 +228,8 @@ def valid_case(item):
             return c == [15]
         if op == 16:
             return len(c) == 3 and c[1] in (0, 1) and all(t in (0, 1) for t in c[2]) and c[2][-12:] == fair(2, 6)
+        if op == 18:
+            return len(c) == 3 and c[1] in (0, 1, 2) and all(t in (0, 1) for t in c[2]) and c[2][-8:] == fair(2, 4)
         if op == 17:
             return len(c) == 2 and all(t in (0, 1) for t in c[1]) and c[1][-8:] == fair(2, 4)
         if op == 7:
@@ -311,6 +321,17 @@ def oracle(item, impl):
         for a, b in log:
             if 2 * (a - 1) != b:
                 return "effect run saw (a, b) = (%d, %d): no single value of s gives both (mid-notification read)" % (a, b)
+        return None
+    if op == 18:
+        (st, v, _polls), wst, hang = impl
+        if hang:
+            return "a thread is blocked forever (await vs a user's write guard)"
+        if wst != 1:
+            return "the writer did not finish within the bounded extra steps"
+        if st != 1:
+            return "the awaiter is still pending after the writer released the value (lost wake-up, write guard)"
+        if v not in (1, 7):
+            return "awaiter resumed with %d, neither the value before nor after the write" % v
         return None
     if op in (15, 16, 17):
         (st, v), fin, hang = impl
@@ -405,15 +426,16 @@ def nontrivial(item, model):
     sched = c[-1]
     if c[0] in (13, 15):
         return True
-    n = {16: lambda: 2, 17: lambda: 2, 1: lambda: len(c[1]) + 1, 2: lambda: len(c[2]) + 1, 3: lambda: len(c[1]), 4: lambda: 2, 5: lambda: 2,
+    n = {16: lambda: 2, 17: lambda: 2, 18: lambda: 2, 1: lambda: len(c[1]) + 1, 2: lambda: len(c[2]) + 1, 3: lambda: len(c[1]), 4: lambda: 2, 5: lambda: 2,
          7: lambda: 2, 10: lambda: 2, 11: lambda: 2}[c[0]]()
-    tail = n * (14 if c[0] in (5, 11) else 3 if c[0] == 7 else 6 if c[0] == 16 else 4 if c[0] == 17 else FAIR_ROUNDS)
+    tail = n * (14 if c[0] in (5, 11) else 3 if c[0] == 7 else 6 if c[0] == 16 else 4 if c[0] in (17, 18) else FAIR_ROUNDS)
     pre = sched[:-tail] if tail else sched
     switches = sum(1 for a, b in zip(pre, pre[1:]) if a != b)
     return switches >= 2
 
 
-NAMES = {15: "by_ref guard across an await vs reload (one executor thread)",
+NAMES = {18: "await vs a user's write guard",
+         15: "by_ref guard across an await vs reload (one executor thread)",
          16: "sync read guard on another thread vs reload", 17: "sync read vs the store of a reload",
          10: "await path, waker callbacks as yield points", 11: "lock order signal -> memo -> effect",
          13: "signal -> memo -> ImmediateEffect on one thread", 9: "random stress with watchdog", 7: "signal read vs write holding the lock", 1: "await path", 2: "effect channel", 3: "signal writes / memo pulls", 4: "mid-notification read",
